@@ -501,6 +501,11 @@ class OraclesMixin:
                         self.violate("C14", "O14.4", f"pipeline accepted by every verb does not export on polars: {cls}: {str(res[2])[:160]}", cls=cls, op=op, tail=tail)
                     if "O6" in self.fam and op == "join":
                         self.violate("C06", "O6.export", f"join result does not export on {rep}: {cls}: {str(res[2])[:160]}", cls=cls, rep=rep, how=step.get("how"))
+                    if cls in INTERNAL_ERRORS and self.fam & {"O9", "O6", "O16"}:
+                        # an accepted pipeline that dies inside the library (assertion, KeyError, ...)
+                        # while its columns are resolved: the references do not denote columns any more
+                        orc = {"C09": "O9.export", "C06": "O6.export", "C16": "O16.export"}[prop]
+                        self.violate(prop, orc, f"after `{op}` the pipeline fails at export on {rep} with an internal {cls}: {str(res[2])[:160]}", cls=cls, rep=rep, op=op, site=self.exc_site(res[2]))
                     if "O16" in self.fam and op == "join" and step.get("selfjoin"):
                         self.violate("C16", "O16.2", f"self-join with a re-rooted copy does not export on {rep}: {cls}: {str(res[2])[:160]}", cls=cls, rep=rep, how=step.get("how"))
                     if "O16" in self.fam and op in REROOT_OPS:
